@@ -179,9 +179,18 @@ def _is_len_of(t, nums):
     return isinstance(t, App) and t.fn.endswith("::len") and len(t.args) == 1 and _strip_views(t.args[0]).key() == _strip_views(nums).key()
 
 
+_FB = None
+
+
 def _words_for(trk, nums):
     """tracker = from_elem(0, 1 + len(nums) / 64), for the very numbers handed to the reducer"""
     trk = _strip_views(trk)
+    # a private constructor shared by the evaluators (`make_tracker(n)`): judged by what it returns for n
+    if isinstance(trk, App) and _FB is not None and trk.fn in _FB.bodies and len(trk.args) == 1 and _FB.bodies[trk.fn]["arg_count"] == 1:
+        hb = _FB.bodies[trk.fn]
+        hps = [p for p in Interp(_FB, Policy()).run(hb, [trk.args[0]]) if p.status != "unreachable"]
+        if len(hps) == 1 and hps[0].status == "return":
+            trk = _strip_views(hps[0].result)
     if not (isinstance(trk, App) and trk.fn.endswith("::from_elem") and len(trk.args) == 2 and rel.const_int(trk.args[0]) == 0):
         return False
     n = rel.canon(trk.args[1])
@@ -232,7 +241,9 @@ def _bitnorm(v, depth=0):
 
 
 def run(ctx):
+    global _FB
     chk, fb = ctx.check, ctx.fb
+    _FB = fb
     chk.rule("R14.1", "reduction step: operator i on (operand at i - get_previous(i), operand at i + consume_next(i)), in this order, result stored left; position 0 returned")
     chk.rule("R14.2", "consume_next(i) = get_next(i), marking position i + get_next(i)")
     chk.rule("R14.3", "tracker capacity >= number of operands at every reduction (one word only under `len <= word bits`), zero-initialised")
